@@ -178,6 +178,10 @@ int main(int argc, char **argv) {
             slots[i].a()->cleanup();
             st[i] = 'N';
             std::cout << state_line(1) << "\n";
+        } else if (op == "del" && w.size() == 2 && slot_of(w[1], i) && slots[i].a()) {
+            delete slots[i].a();                   // as a user would: no disable() first
+            slots[i] = Slot(); st[i] = 'N';
+            std::cout << state_line(1) << "\n";
         } else if (op == "cb" && w.size() == 2 && slot_of(w[1], i) && slots[i].a()) {
             slots[i].a()->setCallback([i] { on_alarm(i); });
             std::cout << state_line(1) << "\n";
